@@ -6,6 +6,7 @@
 -/
 import RevalModel.Lemmas.Literals
 import RevalModel.Lemmas.LexLayout
+import RevalModel.Lemmas.LexComplete
 
 namespace Reval.C08
 open Disp
@@ -115,6 +116,65 @@ theorem layout_same_tree (o : Oracle) (lead lead' : List LexC.Piece) (items item
     (same : items.map (·.1) = items'.map (·.1)) :
     parseExprText o (LexC.gapText lead ++ LexC.gapped items) = parseExprText o (LexC.gapText lead' ++ LexC.gapped items') := by
   simp only [parseExprText, layout_insignificant lead items hl h, layout_insignificant lead' items' hl' h', same]
+
+/-! ### … for every text: whatever the tokens are -/
+
+/-- a layout of a token list: every token written as the text it carries, followed by a gap of well-formed pieces —
+    non-empty between two tokens, and no comment directly after a `/` -/
+def GapsOK : List (Tok × Str × List LexC.Piece) → Prop
+  | [] => True
+  | (t, w, g) :: rest => w = LexC.tokText t ∧ (∀ p ∈ g, p.OK) ∧ LexC.SlashOK w g ∧ (rest ≠ [] → g ≠ []) ∧ GapsOK rest
+
+theorem gappedOK_of_vocabulary : ∀ (items : List (Tok × Str × List LexC.Piece)),
+    (∀ it ∈ items, LexC.PTok it.1 (LexC.tokText it.1)) → GapsOK items → LexC.GappedOK items := by
+  intro items
+  induction items with
+  | nil => intro _ _; trivial
+  | cons it rest ih =>
+    obtain ⟨t, w, g⟩ := it
+    intro hv hg
+    obtain ⟨rfl, h1, h2, h3, h4⟩ := hg
+    exact ⟨hv (t, _, g) List.mem_cons_self, h1, h2, h3, ih (fun it hit => hv it (List.mem_cons_of_mem _ hit)) h4⟩
+
+/-- **layout is insignificant, for every text** (Lemmas/LexComplete.lean: the vocabulary is complete): take ANY text the
+    lexer accepts, with tokens `T` — whatever they are: floats with exponents, radix literals, strings with any escapes,
+    `i5x`-like identifiers — and write those tokens out again with any leading gap and any gaps between them: the new
+    text lexes to exactly `T` -/
+theorem layout_insignificant_general (s : Str) (T : List Tok) (h : lex s = some T)
+    (lead : List LexC.Piece) (items : List (Tok × Str × List LexC.Piece)) (hl : ∀ p ∈ lead, p.OK)
+    (hT : items.map (·.1) = T) (hg : GapsOK items) :
+    lex (LexC.gapText lead ++ LexC.gapped items) = some T := by
+  have hv : ∀ it ∈ items, LexC.PTok it.1 (LexC.tokText it.1) := by
+    intro it hit
+    exact LexC.lex_ptok s T h it.1 (by rw [← hT]; exact List.mem_map_of_mem hit)
+  rw [← hT]
+  exact layout_insignificant lead items hl (gappedOK_of_vocabulary items hv hg)
+
+/-- … hence every such re-layout of a text parses to what the text itself parses to (tree, or rejection) -/
+theorem layout_same_tree_general (o : Oracle) (s : Str) (T : List Tok) (h : lex s = some T)
+    (lead : List LexC.Piece) (items : List (Tok × Str × List LexC.Piece)) (hl : ∀ p ∈ lead, p.OK)
+    (hT : items.map (·.1) = T) (hg : GapsOK items) :
+    parseExprText o (LexC.gapText lead ++ LexC.gapped items) = parseExprText o s := by
+  simp only [parseExprText, layout_insignificant_general s T h lead items hl hT hg, h]
+
+/-- non-vacuity: `f-1.5e+3*0xFF+"a\qb"` (tokens touching) re-laid out with a comment, a tab and a line break -/
+example : lex (LexC.gapText [.white ' '] ++ LexC.gapped
+      [(.float "f-1.5e+3".toList, "f-1.5e+3".toList, [.comment ['x'] ['\n']]), (.p ['*'], ['*'], [.white '\t']),
+       (.hex "0xFF".toList, "0xFF".toList, [.white '\n']), (.p ['+'], ['+'], [.white ' ']),
+       (.str "\"a\\qb\"".toList, "\"a\\qb\"".toList, [])]) =
+    some [.float "f-1.5e+3".toList, .p ['*'], .hex "0xFF".toList, .p ['+'], .str "\"a\\qb\"".toList] := by
+  refine layout_insignificant_general "f-1.5e+3*0xFF+\"a\\qb\"".toList _ (by decide +kernel) _ _ ?_ rfl ?_
+  · intro p hp; simp only [List.mem_singleton] at hp; subst hp; exact (by decide : Str.isWhite ' ' = true)
+  · refine ⟨rfl, ?_, ?_, by simp, rfl, ?_, ?_, by simp, rfl, ?_, ?_, by simp, rfl, ?_, ?_, by simp, rfl, by simp, ?_, by simp, trivial⟩
+    · intro p hp; simp only [List.mem_singleton] at hp; subst hp; exact ⟨by decide, by simp, by decide⟩
+    · intro e; exact absurd e (by decide)
+    · intro p hp; simp only [List.mem_singleton] at hp; subst hp; exact (by decide : Str.isWhite '\t' = true)
+    · intro e; exact absurd e (by decide)
+    · intro p hp; simp only [List.mem_singleton] at hp; subst hp; exact (by decide : Str.isWhite '\n' = true)
+    · intro e; exact absurd e (by decide)
+    · intro p hp; simp only [List.mem_singleton] at hp; subst hp; exact (by decide : Str.isWhite ' ' = true)
+    · intro e; exact absurd e (by decide)
+    · intro e; exact absurd e (by decide)
 
 /-- the exclusion is real (the recorded known finding): a comment directly after `/` swallows the operator -/
 theorem slash_then_comment_is_one_comment :
